@@ -398,6 +398,10 @@ def run(ctx, rec):
     for k in range(n * 2):
         prim_case(rec, rng, k, names[k % len(names)])
     direct_converters(rec, rng, n)
+    if not ctx.quick and ctx.shard == 0:
+        from .. import suite
+
+        suite.run_suite(rec, "param", ["param-", "prefixed-", "to-scalar", "to-prefixed"])
     rec.extra["primitives_covered"] = len(names)
     rec.exhaustive = False
 
